@@ -34,6 +34,14 @@ class Tunnelling(RequestResponse[TunnellingAck]):
         """Build knxipframe (within derived class) and send via UDP."""
         self._transport.send(self._create_knxipframe(), addr=self.data_endpoint_addr)
 
+    def _answers_request(self, body: TunnellingAck) -> bool:
+        """Only the ACK repeating the channel id and sequence counter of the request confirms it."""
+        return (
+            body.communication_channel_id
+            == self.tunnelling_request.communication_channel_id
+            and body.sequence_counter == self.tunnelling_request.sequence_counter
+        )
+
     def _create_knxipframe(self) -> KNXIPFrame:
         """Create KNX/IP Frame object to be sent to device."""
         return KNXIPFrame.init_from_body(self.tunnelling_request)
